@@ -76,6 +76,10 @@ PROGSETS = {
                      r2=P([I('next', 'r2', c=1), I('next', 'r1', c=1)], plain=1, inv=0)),
     'cond': dict(r1=P([I('wait', 'c1'), I('yn', v=8), I('wait', 'c1'), I('yv', v=1)]),
                  r2=P([I('settest', 'c1', 1), I('signal', 'c1'), I('yn', v=4), I('settest', 'c1', 0), I('unhang', 'c1')])),
+    # callable tests: returning false / true, raising (TypeError inside, ValueError, wrong arity)
+    'condtest': dict(r1=P([I('wait', 'c1'), I('yn', v=8), T(), I('wait', 'c1'), X(), I('yv', v=1), EX(), I('yn', v=2)]),
+                     r2=P([I('settest', 'c1', 4), I('signal', 'c1', c=1), I('yn', v=4), I('settest', 'c1', 3), I('signal', 'c1'),
+                           I('yn', v=1), I('settest', 'c1', 5), I('signal', 'c1')])),
     'condnest': dict(r1=P([I('next', 'r2', c=1), I('yn', v=8), I('next', 'r2', c=1), I('yn', v=8)]),
                      r2=P([I('wait', 'c1'), I('yv', v=2), I('wait', 'c1')])),
     'flowvar': dict(r1=P([I('fget', 'f1'), I('yn', v=8), I('fget', 'f1'), I('yv', v=4)]),
@@ -105,7 +109,7 @@ PROGSETS = {
                   r3=P([I('yn', v=1), I('stop', 'r1', c=1), I('raise')])),
 }
 QUICK_SETS = ('flow', 'fail', 'nest', 'nestops', 'selfops', 'reentry', 'cond', 'flowvar', 'plain', 'embed', 'embedfail',
-              'trycatch', 'tryfin', 'tryself', 'trypend', 'trycond', 'failbase', 'failbase2')
+              'trycatch', 'tryfin', 'tryself', 'trypend', 'trycond', 'failbase', 'failbase2', 'condtest')
 
 
 def alphabet(prog):
@@ -120,16 +124,21 @@ def case(prog, hist, cls):
     return dict(prog=prog, conds=['c1'], flows=['f1'], hist=hist, cls=cls)
 
 
+TEST_CALLS = [E('settest', 'c1', v) for v in (2, 3, 4, 5, 6)]
+
+
 def exhaustive_cases(names, depth, reduced=False):
     out = []
     for nm in names:
         prog = PROGSETS[nm]
         al = alphabet(prog)
+        if nm in ('cond', 'condtest'):      # conditions with callable tests (false, true, raising)
+            al = al + TEST_CALLS
         if len(prog) > 2:
             al = [e for e in al if e['op'] in ('next', 'stop', 'reset', 'tick', 'play')]
         if reduced:     # 12 calls: everything on r1, next/stop/reset on r2, signal, value=, tick
             al = [e for e in al if (e['t'] == 'r1' and e['v'] == 0) or (e['t'] == 'r2' and e['op'] in ('next', 'stop', 'reset'))
-                  or e['op'] in ('signal', 'fset', 'tick')]
+                  or e['op'] in ('signal', 'fset', 'tick') or (nm == 'condtest' and e['op'] == 'settest' and e['v'] in (1, 4))]
         for h in itertools.product(al, repeat=depth):
             out.append(case(prog, list(h), 'exh:' + nm))
     return out
@@ -158,9 +167,9 @@ def random_instr(rnd, names, me, plain, in_handler):
     if op in ('stop', 'pause', 'resume', 'reset', 'play'):
         return I(op, rnd.choice(names), c=rnd.choice((0, 1, 1)))
     if op in ('wait', 'signal', 'unhang'):
-        return I(op, rnd.choice(('c1', 'c1', 'f1')) if op != 'wait' else 'c1')
+        return I(op, rnd.choice(('c1', 'c1', 'f1')) if op != 'wait' else 'c1', c=rnd.choice((0, 1)) if op == 'signal' else 0)
     if op == 'settest':
-        return I(op, 'c1', rnd.choice((0, 1)))
+        return I(op, 'c1', rnd.choice((0, 1, 1, 2, 3, 4, 5, 6)))
     if op == 'fget':
         return I(op, 'f1')
     return I('fset', 'f1', rnd.randint(1, 9), c=rnd.choice((0, 1)))
@@ -205,7 +214,7 @@ def random_case(rnd, n, clocky):
         elif x < 0.85:
             hist.append(E(rnd.choice(('signal', 'unhang')), rnd.choice(('c1', 'f1'))))
         elif x < 0.93:
-            hist.append(E('settest', 'c1', rnd.choice((0, 1))))
+            hist.append(E('settest', 'c1', rnd.choice((0, 1, 1, 2, 3, 4, 5, 6))))
         else:
             hist.append(E('fset', 'f1', rnd.randint(1, 9)))
     return case(prog, hist, 'rand')
@@ -284,7 +293,7 @@ def sim_cases(ctx, sel, num, depth, seed):
     return out
 
 
-NWITNESS = 28
+NWITNESS = 30
 
 
 def witness_run(ctx, cfg, sub, must):
@@ -318,8 +327,8 @@ def run(ctx):
     # vacuity guard: TLC's -coverage cannot be used (its cost model unfolds the recursive interpreter and runs
     # out of memory), so one-worker runs record in TLC registers that every action and every situation an L1
     # predicate talks about (Witnesses in Routine.tla) is reached, and print them in a POSTCONDITION
-    fs = [ex.submit(witness_run, ctx, 'Routine_witness.cfg', 'w', range(1, 23)),
-          ex.submit(witness_run, ctx, 'Routine_witness2.cfg', 'w2', range(23, NWITNESS + 1))]
+    fs = [ex.submit(witness_run, ctx, 'Routine_witness.cfg', 'w', list(range(1, 23)) + [29, 30]),
+          ex.submit(witness_run, ctx, 'Routine_witness2.cfg', 'w2', range(23, 29))]
     for sel in ((1, 2, 3, 4, 6, 9) if thorough else (1, 2, 3, 4, 7)):
         fs.append(ex.submit(model_check_in, ctx, 'p%d' % sel, 'Routine',
                             'Routine_p%d%s.cfg' % (sel, '_thorough' if thorough else ''),
@@ -333,7 +342,7 @@ def run(ctx):
                  + exhaustive_cases(('nestops', 'reentry', 'cond', 'embed', 'tryfin', 'tryself'), 4, reduced=True))
     else:
         cases = (exhaustive_cases(QUICK_SETS, 2)
-                 + exhaustive_cases(('reentry', 'cond', 'tryfin', 'trycatch', 'failbase'), 3, reduced=True))
+                 + exhaustive_cases(('reentry', 'cond', 'tryfin', 'trycatch', 'failbase', 'condtest'), 3, reduced=True))
     nrand = 6000 if thorough else 500
     cases += [random_case(rnd, rnd.randint(15, 60), clocky=(i % 3 == 0)) for i in range(nrand)]
     for f in sims:
